@@ -20,7 +20,7 @@ ASSUMPTIONS = [
     "first program of a worker and required to be the same for every later program and for resumed runs",
     "float64; histories / parameters / optimizer state compared at rtol 1e-6, atol 1e-9 (optax schedules evaluate the "
     "learning rate in float32, which differs by an ulp between compiled and step-by-step execution); generator state exact",
-    "obs_batch_sharding (non-compiled branch) not covered: single-device sandbox",
+    "the non-compiled branch of solve is exercised with a SingleDeviceSharding of the only (CPU) device",
 ]
 TIMEOUT = {"quick": 1800, "thorough": 7200}
 MIN_COUNTERS = {"quick": {"programs_compared": 24, "iterations_compared": 200, "programs_with_reshuffle": 15,
@@ -54,6 +54,8 @@ def gen_cases(tier, seed):
         if kind == "sys_ode" and prog["tracked"] == "nn_leaf":
             prog["tracked"] = "theta"
         prog["n_iter"] = 2 * epoch + int(rng.integers(1, 4))
+        # the non-compiled branch of solve (Python while loop) is taken when an observation-batch sharding is given
+        prog["sharding"] = bool(prog["aux"] in ("obs", "both") and k % 3 == 0)
         cases.append(dict(prog=prog, cost=2.0 + (1.0 if prog["resumed"] else 0.0)))
     return cases
 
@@ -131,9 +133,14 @@ def run_case(case, rec):
     label = "%s opt=%s aux=%s n=%d b=%d iters=%d tracked=%s" % (prog["kind"], prog["opt"], prog["aux"], prog["n"],
                                                                  prog["b"], n, prog["tracked"])
 
+    shard = jax.sharding.SingleDeviceSharding(jax.devices()[0]) if prog.get("sharding") else None
+    if shard is not None:
+        rec.count("programs_non_compiled_branch")
+
     def run_solve(n_it, params, data, pdata, odata, opt_state):
         return guard.call(jinns.solve, n_iter=n_it, init_params=params, data=data, loss=P["loss"], optimizer=opt,
-                          opt_state=opt_state, tracked_params=tracked, param_data=pdata, obs_data=odata, verbose=False)
+                          opt_state=opt_state, tracked_params=tracked, param_data=pdata, obs_data=odata,
+                          obs_batch_sharding=shard, verbose=False)
 
     vgc = {}
     out = run_solve(n, P["params"], P["data"], P["param_data"], P["obs_data"], None)
